@@ -33,8 +33,9 @@ usage() { sed -n '2,27p' "$0" | sed 's/^# \{0,1\}//'; exit 2; }
 HARNESS="$(cd "$(dirname "${BASH_SOURCE[0]}")" && pwd -P)"
 [ -d "$1" ] || { echo "build.sh: repo dir '$1' does not exist" >&2; exit 2; }
 REPO="$(cd "$1" && pwd -P)"
-mkdir -p "$2"
-BUILD="$(cd "$2" && pwd -P)"
+# canonicalise WITHOUT creating anything yet (the location is checked first)
+BUILD="$(realpath -m -- "$2" 2>/dev/null || readlink -m -- "$2")"
+[ -n "$BUILD" ] || { echo "build.sh: cannot resolve build dir '$2'" >&2; exit 2; }
 
 case "$REPO$BUILD$HARNESS" in
   *[[:space:]]*) echo "build.sh: paths with whitespace are not supported" >&2; exit 2 ;;
@@ -43,6 +44,7 @@ case "$BUILD/" in
   "$REPO"/*|/verif/*|/repo/*)
     echo "build.sh: refusing to build inside the repository or /verif: $BUILD" >&2; exit 2 ;;
 esac
+mkdir -p "$BUILD"
 for d in src/cpu-kernels src/libawkward include/awkward; do
   [ -d "$REPO/$d" ] || { echo "build.sh: $REPO/$d not found (not an awkward-1.0 checkout?)" >&2; exit 2; }
 done
